@@ -82,7 +82,7 @@ class SList(Sym):
     a z3 sequence ``seq``.
     ``uid``: name used for measures.
     """
-    __slots__ = ('length', 'elem', 'uid', 'cache', 'seq', 'immutable')
+    __slots__ = ('length', 'elem', 'uid', 'cache', 'seq', 'immutable', 'aux')
 
     def __init__(self, length, elem, uid, seq=None):
         self.length = length
@@ -91,6 +91,7 @@ class SList(Sym):
         self.cache = {}
         self.seq = seq
         self.immutable = True
+        self.aux = {}          # measures etc. (pyvc.texts)
 
     def __repr__(self):
         return 'SList(%s, len=%s)' % (self.uid, self.length)
